@@ -66,8 +66,20 @@ BOUNDS = {
              "opposite orders (matrices -> curvature_reg_matrix / reconstruction / log-det terms -> matrices again; and history first), then "
              "inverts a second dataset (DatasetInterface sharing noise map, convolver, grids and w-tilde tables, OTHER data - symbolic in the "
              "data modes) and the first dataset once more. Lists include two different function lists of equal size (2 and 3 columns).",
-    "thorough": "same plus: all 511 masks of a 3x3 window (L1, data symbolic), all 63 masks of a 2x3 window at L3, every order of two 3-object lists "
-                "on ring8/block9, T6 mask with a 3x5 kernel, more symbolic kernel-entry subsets (4 per pattern), 7x7 mirrored matrices, 5x5 kernel tables.",
+    "thorough": "quick plus, under the same obligations: "
+                "L0 blurred matrices up to 9x6 and 8 symbolic noise values, mirrored matrices up to 9x9. "
+                "L1 data symbolic: ALL 65535 masks of a 4x4 window and all 4095 of a 3x4 window (3x3 kernel), all 4095 masks of a 3x4 window for the "
+                "1x1, 1x3, 3x1 kernels, all 511 masks of a 3x3 window for every kernel shape (1x1, 3x3, 5x5, 1x3, 3x1, 3x5, 5x3); data and noise "
+                "symbolic: all masks of a 3x3 window (3x3 kernel) and of a 2x3 window (every kernel shape); 7 larger patterns (up to 12 pixels: 3x4 "
+                "block, 10-pixel pattern with holes, staircase, four far-apart pixels) with a spare ring, noise in units of 2^15 and kernels with "
+                "exact zeros; all noise values symbolic with signed kernels of every shape on patterns up to 12 pixels; 8 subsets of 3 symbolic "
+                "kernel entries on 12 patterns (3x3), 2-3 symbolic entries of the 5x5 / non-square / 1x1 kernels on 6 patterns. "
+                "L2 consumers on masks up to 12 pixels with meshes up to 5x5, sub-size 4, three mappers, 3 function columns. "
+                "L3 aa.Inversion (both formalisms, both read orders, second-dataset history): every order of 12 three-object lists (incl. two "
+                "different equal-size function lists, unregularized mappers, sub-size 4, meshes up to 4x4/3x5) on masks up to 12 pixels and kernels "
+                "1x1..5x5 with the exact solve; all masks of a 2x3 window for every kernel shape and of a 3x3 window (3x3 kernel), all masks of a 2x2 "
+                "window with a three-object list for every kernel shape; large noise units (2^15, 2^16) ; Delaunay lists on 9-10 pixel masks; noise / "
+                "data+noise / 3-kernel-entry families over 6 object mixes x 4 patterns x rotating kernel shapes.",
 }
 OUTSIDE = [
     "masks / frames other than the enumerated ones, kernels larger than 5x5, more than 3 linear objects, Voronoi and other mesh types",
